@@ -6,7 +6,7 @@ import ast
 from ..core import AnalysisError, call_attr, call_name, calls_in, func_params, norm, parent, short
 from ..driver import Knockout, sub_nth, sub_once
 from ..report import Ctx
-from ..rules import tableau
+from ..rules import loops, tableau
 from ..rules.tableau import CTABLEAU, METRIC, STABF, TABLEAU
 
 SSTATE = "graphiq/backends/stabilizer/state.py"
@@ -19,7 +19,9 @@ EXPLANATION = (
     "form / rref / inverse_circuit / inner_product change generators only through sign-tracking row operations, "
     "tab_row_swap swaps x, z and phase, row_sum receives and returns the sign vector (own.rowops); inner_product's 'return "
     "0' test reads the sign vectors of both states, canonicalises the second state and fidelity is |inner_product|^2 "
-    "(fid.shape). Does not decide that inner_product equals <a|b>, symmetry, or uniqueness of the canonical form.")
+    "(fid.shape); the scratch rows in which inner_product multiplies generators are rebuilt in every iteration (acc.fresh, reaching "
+    "definitions across the loop's back edge); inverse_circuit takes the bottom-most candidate as pivot in a Z-only column "
+    "(pivot.choice). Does not decide that inner_product equals <a|b>, symmetry, or uniqueness of the canonical form.")
 
 
 def _eq_reads(fn: ast.FunctionDef):
@@ -146,8 +148,23 @@ def run(ctx: Ctx) -> None:
     tableau.rule_rowops(ctx)
     tableau.rule_phase_combine(ctx)
     rule_fid_shape(ctx)
+    loops.rule_acc_fresh(ctx, METRIC, "inner_product")
+    loops.rule_pivot_choice(ctx, STABF)
     ctx.floor("cmp.fields", 7)
     ctx.floor("own.rowops", 8)
+
+
+def _hoist(src: str) -> str:
+    block = """            identity_x = np.zeros(n_qubits)
+            identity_z = np.zeros(n_qubits)
+            x_matrix = np.vstack((x1_matrix, identity_x)).astype(int)
+            z_matrix = np.vstack((z1_matrix, identity_z)).astype(int)
+            r_vector = np.hstack((r1_vector, np.zeros(1))).astype(int)
+"""
+    if src.count(block) != 1 or src.count("    counter = 0\n") != 1:
+        raise LookupError("knock-out anchor text missing")
+    src = src.replace(block, "")
+    return src.replace("    counter = 0\n", "\n".join(l[8:] for l in block.splitlines()) + "\n    counter = 0\n")
 
 
 KNOCKOUTS = [
@@ -162,5 +179,7 @@ KNOCKOUTS = [
     Knockout("rowswap-no-phase", STABF, sub_once("    tableau.phase = row_swap(tableau.phase, first_row, second_row)\n", ""), "own.rowops", "tab_row_swap"),
     Knockout("fidelity-not-squared", METRIC, sub_once("    return np.abs(inner_product(tableau1, tableau2)) ** 2", "    return np.abs(inner_product(tableau1, tableau2))"), "fid.shape", "fidelity"),
     Knockout("inner-product-ignores-sign", METRIC, sub_once("                and r_vector[-1] != r2_vector[i]\n", ""), "fid.shape", "signs"),
+    Knockout("pivot-first-z", STABF, sub_once("tab_row_swap(tableau, pivot[0], z_list[-1])", "tab_row_swap(tableau, pivot[0], z_list[0])"), "pivot.choice", "Z-only pivot"),
+    Knockout("scratch-row-hoisted", METRIC, _hoist, "acc.fresh", "carried across iterations"),
     Knockout("inner-product-no-canonical", METRIC, sub_once("    stabilizer_tableau2 = canonical_form(stabilizer_tableau2)\n", ""), "fid.shape", "reduction"),
 ]
